@@ -175,7 +175,7 @@ static inline word vlcg_next(void) {
   x ^= x >> 33; x *= 0xff51afd7ed558ccdULL; x ^= x >> 29;
   return (word)x;
 }
-/* PAT 0 dense random, 1 sparse, 2 zero, 3 all ones, 4 identity */
+/* PAT 0 dense random, 1 sparse, 2 zero, 3 all ones, 4 identity, 5 identity + dense columns >= 128 */
 static inline word vpat_word(int pat, int i, int j) {
   word r = vlcg_next();
   switch (pat) {
@@ -183,6 +183,7 @@ static inline word vpat_word(int pat, int i, int j) {
   case 1: return r & vlcg_next() & vlcg_next();
   case 2: return 0;
   case 3: return ~(word)0;
+  case 5: return ((i / 64 == j) ? ((word)1 << (i % 64)) : 0) | (j >= 2 ? ~(word)0 : 0); /* identity + dense from column 128 on: whole zero words followed by ones */
   default: return (i / 64 == j) ? ((word)1 << (i % 64)) : 0;
   }
 }
